@@ -20,7 +20,7 @@ RULE = ("value alphabet S = {'', 'a', ',', '\\\\', 'a,', ',a', '\\\\,', ',\\\\',
         "cells. non-trivial = the two tuples collide under naive joining with ',' (or contain separator/escape); distinct = distinct "
         "pairs / tables")
 ASSUMPTIONS = ["values are strings (the statement compares as strings)", "k=3 pairs are covered only through the all-tuples table"]
-CLASSES = ["naive_join_collision", "contains_separator", "contains_escape", "empty_string", "table_dataframe", "table_ndarray", "table_list",
+CLASSES = ["numeric_mixed_dtype_columns", "naive_join_collision", "contains_separator", "contains_escape", "empty_string", "table_dataframe", "table_ndarray", "table_list",
            "control_table", "eg_pair", "gridsearch_pair", "metricframe_partition"]
 SIGMA = ["", "a", ",", "\\", "a,", ",a", "\\,", ",\\", "1", "1.0"]
 SUB = ["a", ",", "\\", "a,", ",a"]
@@ -44,6 +44,10 @@ def cases(tier, seed):
     for i, j in itertools.combinations(range(len(S2)), 2):
         yield {"kind": "redpair", "t1": [SIGMA.index(SUB[v]) for v in S2[i]], "t2": [SIGMA.index(SUB[v]) for v in S2[j]]}
     yield {"kind": "partition"}
+    # numeric columns of DIFFERENT dtypes (int + float, bool + int): fit and predict must build the same group keys
+    NUM = [(1, 0.5), (2, 0.5), (1, 1.0), (2, 1.0), (0, 0.0)]
+    for i, j in itertools.combinations(range(len(NUM)), 2):
+        yield {"kind": "numpair", "n1": list(NUM[i]), "n2": list(NUM[j])}
 
 
 def describe(case):
@@ -256,8 +260,49 @@ def _run_partition(case):
     return out
 
 
+def _run_numpair(case):
+    from fairlearn.postprocessing import ThresholdOptimizer
+
+    from mc.stubs import prefit_score
+
+    t1, t2 = tuple(case["n1"]), tuple(case["n2"])
+    out = {"evals": 1, "violations": [], "classes": {"numeric_mixed_dtype_columns"}, "nontrivial": True}
+    V = out["violations"]
+    rows = [t1, t2] * 4
+    s_ = [0.9, 0.9, 0.1, 0.1, 0.8, 0.8, 0.3, 0.3]
+    y = [1, 0, 0, 1, 1, 0, 0, 1]
+    X = np.array(s_).reshape(-1, 1)
+    ctx = "numeric tuples %r vs %r" % (t1, t2)
+    for variant in ("int+float", "bool+int"):
+        if variant == "int+float":
+            df = pd.DataFrame({"u": pd.Series([r[0] for r in rows], dtype="int64"), "v": pd.Series([r[1] for r in rows], dtype="float64")})
+        else:
+            if t1[0] == t2[0] and (t1[1] > 0) == (t2[1] > 0):
+                continue
+            df = pd.DataFrame({"u": pd.Series([r[1] > 0.5 for r in rows], dtype="bool"), "v": pd.Series([r[0] for r in rows], dtype="int64")})
+            if len(set(map(tuple, df.values.tolist()))) < 2:
+                continue
+        t_ = ThresholdOptimizer(estimator=prefit_score(), constraints="demographic_parity", objective="accuracy_score", prefit=True, predict_method="predict",
+                                grid_size=4, flip=True).fit(X, y, sensitive_features=df)
+        keys = list(t_.interpolated_thresholder_.interpolation_dict)
+        if len(keys) != 2:
+            V.append(viol("C13:thresholder:group-count", "interpolation_dict has %d keys %r for two distinct numeric tuples (%s, %s)" % (len(keys), keys, ctx, variant)))
+            continue
+        p_df = np.asarray(t_._pmf_predict(X, sensitive_features=df), float)[:, 1]
+        perm = [7, 2, 5, 0, 3, 6, 1, 4]
+        p_pm = np.asarray(t_._pmf_predict(X[perm], sensitive_features=df.iloc[perm].reset_index(drop=True)), float)[:, 1]
+        acc = float(np.mean([p if yy == 1 else 1 - p for p, yy in zip(p_df, y)]))
+        # (the caller converting the frame to a float/object ndarray changes the string form of the values, so only the same
+        #  DataFrame presentation is required to hit the learned rules)
+        if acc < 1 - 1e-9 or not np.allclose(p_pm, p_df[perm], atol=1e-12):
+            V.append(viol("C13:thresholder:numeric-tuples", "rules learned for numeric tuples are not applied at predict time: probabilities %r (permuted rows %r), accuracy %r (%s, %s)" % (
+                p_df.tolist(), p_pm.tolist(), acc, ctx, variant), 1.0, acc))
+    out["classes"] = sorted(out["classes"])
+    return out
+
+
 def run_case(case):
-    return {"table": _run_table, "pair": _run_pair, "redpair": _run_redpair, "partition": _run_partition}[case["kind"]](case)
+    return {"numpair": _run_numpair, "table": _run_table, "pair": _run_pair, "redpair": _run_redpair, "partition": _run_partition}[case["kind"]](case)
 
 
 LEVEL_TEXT = ("Every tuple over an alphabet built from the separator, the escape character, their combinations, empty and numeric-looking "
